@@ -98,7 +98,7 @@ func newNegativeFeeFixture(t *testing.T) negativeFeeFixture {
 		metrics:   metrics,
 		relayerFees: map[string]sdkmath.LegacyDec{
 			// an ordinary relayer
-			vals[0].String(): sdkmath.LegacyMustNewDecFromStr("1.1"),
+			vals[0].String(): sdkmath.LegacyMustNewDecFromStr("0.05"),
 			// a relayer that set the lowest multiplicator the type can hold
 			vals[1].String(): lowestStorableMultiplicator(t),
 		},
